@@ -411,6 +411,35 @@ def interleave(fa, fb, gza, gzb, same, s1, s2, s3, s4, **kw):
     return ""
 
 
+def reread(f, gz, f2, **kw):
+    """the same file name read again after its content was replaced (by a corpus in the same or another format):
+    the second pass yields the new content"""
+    import gzip
+    stubs.install()
+    stubs.mkdir("da")
+    fmt1, fmt2 = IFMT[f], IFMT[f2]
+    name = "da/x." + IEXT[fmt1] + (".gz" if gz else "")
+    res = []
+    for (fmt, cont) in ((fmt1, False), (fmt2, True)):
+        data = _ifile(fmt, cont)
+        stubs.MemFS.files[name] = gzip.compress(data) if gz else data
+        try:
+            res.append([_obs(t) for t in getattr(treeinput, fmt)(name, "utf-8", quiet=True)])
+        except Exception as e:      # noqa
+            return "%s reader failed on %s (pass %d): %s: %s" % (fmt, name, len(res) + 1, type(e).__name__, e)
+    stubs.install()
+    stubs.mkdir("db")
+    name2 = "db/y." + IEXT[fmt2] + (".gz" if gz else "")
+    data = _ifile(fmt2, True)
+    stubs.MemFS.files[name2] = gzip.compress(data) if gz else data
+    alone = [_obs(t) for t in getattr(treeinput, fmt2)(name2, "utf-8", quiet=True)]
+    if len(res[0]) != 3 or len(alone) != 2:
+        return "readers yield %d and %d sentences, the files have 3 and 2" % (len(res[0]), len(alone))
+    if res[1] != alone:
+        return "%s reader on %s after the file was replaced yields %r, the new content alone %r" % (fmt2, name, res[1], alone)
+    return ""
+
+
 def conds(tier):
     q = tier == "quick"
     cs = []
@@ -434,6 +463,9 @@ def conds(tier):
                    functions=["treeinput.export", "treeinput.brackets", "treeinput.discobrackets", "treeinput.tigerxml", "misc.gunzip"],
                    note="two readers (all format pairs, plain or gzip sources in two directories, same or different base name), "
                         "every order of advancing them: 16 schedules of the first four steps"))
+    cs.append(Cond("reread", "harness.c18:reread", [P("f", "int", 0, 4), P("gz", "bool"), P("f2", "int", 0, 4)],
+                   shard=["gz"], timeout=600, functions=["treeinput.*", "misc.gunzip"],
+                   note="a file name read, replaced by another corpus (any format), read again"))
     return cs
 
 
